@@ -51,6 +51,7 @@ class Ctx:
         self.unmodelled = set()
         self.notes = []
         self._ord = {}
+        self.rule_filter = None     # rule id -> bool: which rules of the rule file being evaluated count (rules/_deps.py)
 
     # ---- bookkeeping ----------------------------------------------------------------------
     def prog(self, config="tls"):
@@ -58,6 +59,8 @@ class Ctx:
         return self.progs[config]
 
     def rule(self, rid, explanation):
+        if self.rule_filter is not None and not self.rule_filter(rid):
+            return
         self.rules.setdefault(rid, {"instances": 0, "explanation": explanation, "violations": 0})
 
     def fn(self, body):
@@ -80,6 +83,8 @@ class Ctx:
     def ob(self, rule, ok, what, fn=None, construct=None, callee=None, where=None, detail=None,
            nontrivial=True, key_extra=None, sample=None):
         """Record one obligation (rule instance).  ok=False -> violation."""
+        if self.rule_filter is not None and not self.rule_filter(rule):
+            return bool(ok)
         self.obligations += 1
         r = self.rules.setdefault(rule, {"instances": 0, "explanation": "", "violations": 0})
         r["instances"] += 1
@@ -151,18 +156,31 @@ def run_property(prop, tier, rule_mod, configs, replay=None, selftest=None):
         return 2
     ctx = Ctx(prop, tier, progs, infos)
     try:
+        own = prop + "."
+        ctx.rule_filter = lambda r: r.startswith(own) or r in ("anchor-missing", "analysis-budget")
         rule_mod.run(ctx)
+        from rules import _deps
+        _deps.run_includes(ctx, prop)
+        ctx.rule_filter = None
     except TooManyPaths as e:
         # fail closed: the function grew beyond what the path engine enumerates (a new loop nest, a state machine)
         ctx.cur_config = ctx.cur_config or configs[0]
+        ctx.rule_filter = None
         ctx.ob("analysis-budget", False, "analysis-budget: %s" % e, construct="budget", callee=str(e).split(":")[0][:120])
     except AnchorMissing as e:
         ctx.cur_config = ctx.cur_config or configs[0]
+        ctx.rule_filter = None
         ctx.ob("anchor-missing", False, "anchor-missing: %s" % e, construct="anchor", callee=str(e)[:120])
-    except Exception:
+    except Exception as e:
+        # fail closed: a construct the rule file cannot analyse (never the case on the pinned tree, where every check completes)
+        # is reported as a violation of the anchor it was looking at, not as a crash of the checker
         traceback.print_exc()
-        print("check: internal error in rule file for %s" % prop)
-        return 3
+        tb = traceback.extract_tb(e.__traceback__)
+        site = next((f for f in reversed(tb) if "/rules/" in f.filename), tb[-1])
+        ctx.cur_config = ctx.cur_config or configs[0]
+        ctx.rule_filter = None
+        ctx.ob("analysis-internal", False, "analysis-internal: %s in %s:%s (%s): the code has a shape this rule cannot read" % (type(e).__name__, os.path.basename(site.filename), site.name, str(e)[:80]),
+               construct="internal", callee="%s:%s" % (os.path.basename(site.filename), site.name))
     known = load_known()
     new, matched = [], []
     for v in ctx.violations:
